@@ -1,12 +1,13 @@
 /-
-C04 — `intersect`: every common member of two values is a member of the intersection.
+C04 — `intersect`: every common member of two values is a member of the intersection, for ALL operands.
 
 `CweModel.C04.Crt` proves that the chinese-remainder computation cannot overflow and passes the code's
-own verification whenever `lcm(strides) ≤ u64::MAX`, and that it answers `Err` otherwise. Here this is
-combined with `adjust_to_stride_and_remainder`: `intersect_sound`, `intersect_none_no_common`
-(unconditional for `lcm ≤ u64::MAX`) and `intersect_complete` (what the code does for all operands).
+own verification whenever `lcm(strides) ≤ u64::MAX`; `CweModel.C04.Wide` proves that
+`compute_unique_common_value` (the repair of `intersect-lcm-overflow-false-unsat`) finds the only
+possible common value otherwise. Here both are combined with `adjust_to_stride_and_remainder`:
+`signedIntersect_spec`, `intersect_sound`, `intersect_none_no_common`.
 -/
-import CweModel.C04.Crt
+import CweModel.C04.Wide
 import CweModel.C02.Count
 
 namespace CweModel.C04
@@ -56,13 +57,48 @@ theorem smax2_spec (a b : Int) : Interval.smax2 a b = max a b := by
 theorem smin2_spec (a b : Int) : Interval.smin2 a b = min a b := by
   unfold Interval.smin2; split <;> omega
 
-/-- `signed_intersect` keeps a common member `x` whenever the residue computation (only used for
-operands of at most 64 bit with two positive strides) returns a class that contains `x` -/
-theorem signedIntersect_of_residue (I J : Interval) (hI : I.WF) (hJ : J.WF) (hw : J.w = I.w)
-    {x : Int} (hxI : I.Mem x) (hxJ : J.Mem x)
-    (hcrt : I.w ≤ 64 → I.stride ≠ 0 → J.stride ≠ 0 →
-      ∃ stride rem : Nat, computeIntersectionResidueClass I J = .some stride rem ∧ 0 < stride ∧
-        stride < 2 ^ 64 ∧ (stride : Int) ∣ x - rem) :
+/-- a common member makes the start values congruent modulo the gcd of the strides -/
+theorem cong_of_common (I J : Interval) {x : Int} (hxI : I.Mem x) (hxJ : J.Mem x) :
+    I.start % ((Nat.gcd I.stride J.stride : Nat) : Int) = J.start % ((Nat.gcd I.stride J.stride : Nat) : Int) := by
+  have hgl : ((Nat.gcd I.stride J.stride : Nat) : Int) ∣ (I.stride : Int) :=
+    Int.natCast_dvd_natCast.mpr (Nat.gcd_dvd_left _ _)
+  have hgr : ((Nat.gcd I.stride J.stride : Nat) : Int) ∣ (J.stride : Int) :=
+    Int.natCast_dvd_natCast.mpr (Nat.gcd_dvd_right _ _)
+  have e1 : I.start % ((Nat.gcd I.stride J.stride : Nat) : Int) = x % ((Nat.gcd I.stride J.stride : Nat) : Int) := by
+    apply Int.emod_eq_emod_iff_emod_sub_eq_zero.mpr
+    apply Int.emod_eq_zero_of_dvd
+    have : I.start - x = -(x - I.start) := by omega
+    rw [this]; exact Int.dvd_neg.mpr (Int.dvd_trans hgl hxI.2.2)
+  have e2 : J.start % ((Nat.gcd I.stride J.stride : Nat) : Int) = x % ((Nat.gcd I.stride J.stride : Nat) : Int) := by
+    apply Int.emod_eq_emod_iff_emod_sub_eq_zero.mpr
+    apply Int.emod_eq_zero_of_dvd
+    have : J.start - x = -(x - J.start) := by omega
+    rw [this]; exact Int.dvd_neg.mpr (Int.dvd_trans hgr hxJ.2.2)
+  rw [e1, e2]
+
+/-- the residue class for a common member when the lcm of the strides fits into a `u64` -/
+theorem residueClass_of_lcm (I J : Interval) (hI : I.WF) (hJ : J.WF) (hsI : I.stride ≠ 0) (hsJ : J.stride ≠ 0)
+    (hL : Nat.lcm I.stride J.stride < 2 ^ 64) {x : Int} (hxI : I.Mem x) (hxJ : J.Mem x) :
+    ∃ stride rem : Nat, computeIntersectionResidueClass I J = .some stride rem ∧ 0 < stride ∧ stride < 2 ^ 64 ∧
+      (stride : Int) ∣ x - rem := by
+  rcases residueClass_total I J hI hJ hsI hsJ hL with ⟨_, hne⟩ | ⟨rc, hres, _, d1, d2⟩
+  · exact absurd (cong_of_common I J hxI hxJ) hne
+  · refine ⟨_, rc, hres, Nat.lcm_pos (by omega) (by omega), hL, ?_⟩
+    have dI : (I.stride : Int) ∣ x - rc := by
+      have : x - rc = (x - I.start) + (I.start - rc) := by omega
+      rw [this]; exact Int.dvd_add hxI.2.2 d1
+    have dJ : (J.stride : Int) ∣ x - rc := by
+      have : x - rc = (x - J.start) + (J.start - rc) := by omega
+      rw [this]; exact Int.dvd_add hxJ.2.2 d2
+    exact lcm_dvd_int dI dJ
+
+/-- **C04-intersect (intervals).** Every common member of two well-formed intervals of the same width is
+a member of `signed_intersect`, which in particular does not report "empty". No restriction on the
+strides: if their lcm fits a `u64` the chinese-remainder path is taken (`residueClass_total`), otherwise
+the intervals share at most one value and `compute_unique_common_value` finds it
+(`uniqueCommon_complete`). -/
+theorem signedIntersect_spec (I J : Interval) (hI : I.WF) (hJ : J.WF) (hw : J.w = I.w)
+    {x : Int} (hxI : I.Mem x) (hxJ : J.Mem x) :
     ∃ r, I.signedIntersect J = some r ∧ r.Mem x ∧ r.WF ∧ r.w = I.w := by
   have hIwf := hI
   have hJwf := hJ
@@ -112,103 +148,51 @@ theorem signedIntersect_of_residue (I J : Interval) (hI : I.WF) (hJ : J.WF) (hw 
         by_cases h : max I.start J.start = min I.stop J.stop <;> simp [h]
     · rename_i hw64
       have hw64' : I.w ≤ 64 := by omega
-      -- the residue class contains x
-      have hres : ∃ stride rem : Nat, computeIntersectionResidueClass I J = .some stride rem ∧ 0 < stride ∧
-          stride < 2 ^ 64 ∧ (stride : Int) ∣ x - rem := by
-        by_cases hsI : I.stride = 0
-        · have hsJ : J.stride ≠ 0 := fun h => hnz ⟨hsI, h⟩
-          have hxs : x = I.start := by have := hxI.1; have := hxI.2.1; have := h0.mp hsI; omega
-          obtain ⟨rem, h1, h2⟩ := residueOfSingle_spec x J hJwf (by omega) hsJ hxJ
-          refine ⟨J.stride, rem, ?_, by omega, hJu, h2⟩
-          unfold computeIntersectionResidueClass
-          rw [if_neg hnz, if_pos hsI, ← hxs]; exact h1
-        · by_cases hsJ : J.stride = 0
-          · have hxs : x = J.start := by have := hxJ.1; have := hxJ.2.1; have := hJ0.mp hsJ; omega
-            obtain ⟨rem, h1, h2⟩ := residueOfSingle_spec x I hIwf hw64' hsI hxI
-            refine ⟨I.stride, rem, ?_, by omega, hu, h2⟩
+      have hlcmN : I.stride / Nat.gcd I.stride J.stride * J.stride = Nat.lcm I.stride J.stride := by
+        unfold Nat.lcm
+        rw [Nat.mul_div_right_comm (Nat.gcd_dvd_left _ _)]
+      rw [hlcmN]
+      split
+      · -- lcm > u64::MAX: the only common value
+        rename_i hbig
+        have hsI : I.stride ≠ 0 := by
+          intro h; rw [h, Nat.lcm_zero_left] at hbig; omega
+        have hsJ : J.stride ≠ 0 := by
+          intro h; rw [h, Nat.lcm_zero_right] at hbig; omega
+        have hxr := Interval.mem_inRange hIwf hxI
+        rw [uniqueCommon_complete I J hIwf hJwf hw hw64' hsI hsJ (by omega) hxI hxJ]
+        simp only
+        rw [tryToI128_inRange hw0 hw64' hsr, tryToI128_inRange hw0 hw64' her]
+        simp only
+        rw [if_pos ⟨hs1, he1⟩, wrap_of_inRange I.w hw0 hxr]
+        exact ⟨_, rfl, ⟨Int.le_refl _, Int.le_refl _, by simp⟩,
+          ⟨hw0, hxr, hxr, Int.le_refl _, by simp, by simp, by show (0 : Nat) < 2 ^ 64; decide⟩, rfl⟩
+      · rename_i hsmall
+        have hL : Nat.lcm I.stride J.stride < 2 ^ 64 := by omega
+        -- the residue class contains x
+        have hres : ∃ stride rem : Nat, computeIntersectionResidueClass I J = .some stride rem ∧ 0 < stride ∧
+            stride < 2 ^ 64 ∧ (stride : Int) ∣ x - rem := by
+          by_cases hsI : I.stride = 0
+          · have hsJ : J.stride ≠ 0 := fun h => hnz ⟨hsI, h⟩
+            have hxs : x = I.start := by have := hxI.1; have := hxI.2.1; have := h0.mp hsI; omega
+            obtain ⟨rem, h1, h2⟩ := residueOfSingle_spec x J hJwf (by omega) hsJ hxJ
+            refine ⟨J.stride, rem, ?_, by omega, hJu, h2⟩
             unfold computeIntersectionResidueClass
-            rw [if_neg hnz, if_neg hsI, if_pos hsJ, ← hxs]; exact h1
-          · exact hcrt hw64' hsI hsJ
-      obtain ⟨stride, rem, hcomp, hst0, hst64, hdvd⟩ := hres
-      rw [hcomp]
-      simp only
-      obtain ⟨r, hr, hrwf, hrw, hmem, _, _⟩ := adjust_spec
-        { w := I.w, start := max I.start J.start, stop := min I.stop J.stop, stride := stride } stride rem
-        hw0 hw64' hsr her hst0 hst64 (x := x) hs1 he1 hdvd
-      exact ⟨r, hr, hmem, hrwf, hrw⟩
-
-/-- a common member makes the start values congruent modulo the gcd of the strides -/
-theorem cong_of_common (I J : Interval) {x : Int} (hxI : I.Mem x) (hxJ : J.Mem x) :
-    I.start % ((Nat.gcd I.stride J.stride : Nat) : Int) = J.start % ((Nat.gcd I.stride J.stride : Nat) : Int) := by
-  have hgl : ((Nat.gcd I.stride J.stride : Nat) : Int) ∣ (I.stride : Int) :=
-    Int.natCast_dvd_natCast.mpr (Nat.gcd_dvd_left _ _)
-  have hgr : ((Nat.gcd I.stride J.stride : Nat) : Int) ∣ (J.stride : Int) :=
-    Int.natCast_dvd_natCast.mpr (Nat.gcd_dvd_right _ _)
-  have e1 : I.start % ((Nat.gcd I.stride J.stride : Nat) : Int) = x % ((Nat.gcd I.stride J.stride : Nat) : Int) := by
-    apply Int.emod_eq_emod_iff_emod_sub_eq_zero.mpr
-    apply Int.emod_eq_zero_of_dvd
-    have : I.start - x = -(x - I.start) := by omega
-    rw [this]; exact Int.dvd_neg.mpr (Int.dvd_trans hgl hxI.2.2)
-  have e2 : J.start % ((Nat.gcd I.stride J.stride : Nat) : Int) = x % ((Nat.gcd I.stride J.stride : Nat) : Int) := by
-    apply Int.emod_eq_emod_iff_emod_sub_eq_zero.mpr
-    apply Int.emod_eq_zero_of_dvd
-    have : J.start - x = -(x - J.start) := by omega
-    rw [this]; exact Int.dvd_neg.mpr (Int.dvd_trans hgr hxJ.2.2)
-  rw [e1, e2]
-
-/-- the residue class for a common member when the lcm of the strides fits into a `u64` -/
-theorem residueClass_of_lcm (I J : Interval) (hI : I.WF) (hJ : J.WF) (hsI : I.stride ≠ 0) (hsJ : J.stride ≠ 0)
-    (hL : Nat.lcm I.stride J.stride < 2 ^ 64) {x : Int} (hxI : I.Mem x) (hxJ : J.Mem x) :
-    ∃ stride rem : Nat, computeIntersectionResidueClass I J = .some stride rem ∧ 0 < stride ∧ stride < 2 ^ 64 ∧
-      (stride : Int) ∣ x - rem := by
-  rcases residueClass_total I J hI hJ hsI hsJ hL with ⟨_, hne⟩ | ⟨rc, hres, _, d1, d2⟩
-  · exact absurd (cong_of_common I J hxI hxJ) hne
-  · refine ⟨_, rc, hres, Nat.lcm_pos (by omega) (by omega), hL, ?_⟩
-    have dI : (I.stride : Int) ∣ x - rc := by
-      have : x - rc = (x - I.start) + (I.start - rc) := by omega
-      rw [this]; exact Int.dvd_add hxI.2.2 d1
-    have dJ : (J.stride : Int) ∣ x - rc := by
-      have : x - rc = (x - J.start) + (J.start - rc) := by omega
-      rw [this]; exact Int.dvd_add hxJ.2.2 d2
-    exact lcm_dvd_int dI dJ
-
-/-- **C04-intersect (intervals).** Every common member of two well-formed intervals of the same width is
-a member of `signed_intersect` — which in particular does not report "empty" — whenever the stride of
-the intersection, `lcm(stride_left, stride_right)`, fits into a `u64` (`Nat.lcm _ 0 = 0`, so operands
-with a single value are covered). -/
-theorem signedIntersect_spec (I J : Interval) (hI : I.WF) (hJ : J.WF) (hw : J.w = I.w)
-    (hL : Nat.lcm I.stride J.stride < 2 ^ 64) {x : Int} (hxI : I.Mem x) (hxJ : J.Mem x) :
-    ∃ r, I.signedIntersect J = some r ∧ r.Mem x ∧ r.WF ∧ r.w = I.w :=
-  signedIntersect_of_residue I J hI hJ hw hxI hxJ
-    (fun _ hsI hsJ => residueClass_of_lcm I J hI hJ hsI hsJ hL hxI hxJ)
-
-/-- **C04-intersect-gives-up (intervals).** For operands of at most 64 bit whose strides have an lcm above
-`u64::MAX`, `signed_intersect` answers `Err` whenever the operands share a member (the residue
-computation reports "integer overflow"; the code documents this). -/
-theorem signedIntersect_gives_up (I J : Interval) (hI : I.WF) (hJ : J.WF) (hw64 : I.w ≤ 64)
-    (hL : 2 ^ 64 ≤ Nat.lcm I.stride J.stride) {x : Int} (hxI : I.Mem x) (hxJ : J.Mem x) :
-    I.signedIntersect J = none := by
-  have hsI : I.stride ≠ 0 := by
-    intro h; rw [h, Nat.lcm_zero_left] at hL; omega
-  have hsJ : J.stride ≠ 0 := by
-    intro h; rw [h, Nat.lcm_zero_right] at hL; omega
-  have herr := residueClass_err_of_big I J hI hJ hsI hsJ hL (cong_of_common I J hxI hxJ)
-  unfold Interval.signedIntersect
-  simp only
-  rw [if_neg (by intro h; exact hsI h.1), if_neg (by omega), herr]
-
-/-- **C04-intersect-complete (intervals).** What `signed_intersect` does with a common member `x` of two
-well-formed intervals of equal width, for ALL operands: it is kept — or the operands have at most 64
-bit, the lcm of their strides exceeds `u64::MAX` and the answer is `Err`. -/
-theorem signedIntersect_complete (I J : Interval) (hI : I.WF) (hJ : J.WF) (hw : J.w = I.w)
-    {x : Int} (hxI : I.Mem x) (hxJ : J.Mem x) :
-    (∃ r, I.signedIntersect J = some r ∧ r.Mem x ∧ r.WF ∧ r.w = I.w) ∨
-    (I.w ≤ 64 ∧ 2 ^ 64 ≤ Nat.lcm I.stride J.stride ∧ I.signedIntersect J = none) := by
-  by_cases hL : Nat.lcm I.stride J.stride < 2 ^ 64
-  · exact .inl (signedIntersect_spec I J hI hJ hw hL hxI hxJ)
-  · by_cases hw64 : I.w ≤ 64
-    · exact .inr ⟨hw64, by omega, signedIntersect_gives_up I J hI hJ hw64 (by omega) hxI hxJ⟩
-    · exact .inl (signedIntersect_of_residue I J hI hJ hw hxI hxJ (fun h => absurd h hw64))
+            rw [if_neg hnz, if_pos hsI, ← hxs]; exact h1
+          · by_cases hsJ : J.stride = 0
+            · have hxs : x = J.start := by have := hxJ.1; have := hxJ.2.1; have := hJ0.mp hsJ; omega
+              obtain ⟨rem, h1, h2⟩ := residueOfSingle_spec x I hIwf hw64' hsI hxI
+              refine ⟨I.stride, rem, ?_, by omega, hu, h2⟩
+              unfold computeIntersectionResidueClass
+              rw [if_neg hnz, if_neg hsI, if_pos hsJ, ← hxs]; exact h1
+            · exact residueClass_of_lcm I J hIwf hJwf hsI hsJ hL hxI hxJ
+        obtain ⟨stride, rem, hcomp, hst0, hst64, hdvd⟩ := hres
+        rw [hcomp]
+        simp only
+        obtain ⟨r, hr, hrwf, hrw, hmem, _, _⟩ := adjust_spec
+          { w := I.w, start := max I.start J.start, stop := min I.stop J.stop, stride := stride } stride rem
+          hw0 hw64' hsr her hst0 hst64 (x := x) hs1 he1 hdvd
+        exact ⟨r, hr, hmem, hrwf, hrw⟩
 
 /-! ### `IntervalDomain::intersect` -/
 
@@ -243,40 +227,22 @@ theorem intersect_of_interval (a b : IntervalDomain) {x : Int}
     exact hmem
 
 /-- **C04-intersect.** Every concrete value represented by both operands is represented by the
-intersection, for all well-formed operands of equal width whose strides have a least common multiple
-of at most `u64::MAX` (the stride of the intersection must be representable; `lcm = 0` if one operand is
-a single value). The residue computation (`extended_gcd`, chinese remainder in `i128`) is proved not to
-overflow and not to give up in this range. -/
+intersection, for ALL well-formed operands of equal width (any strides). The residue computation
+(`extended_gcd`, chinese remainder in `i128`) is proved not to overflow and not to give up when the lcm
+of the strides fits a `u64`; beyond that the unique common value is computed in `u128`. -/
 theorem intersect_sound (a b : IntervalDomain) (ha : a.WF) (hb : b.WF) (hw : b.interval.w = a.interval.w)
-    (hL : Nat.lcm a.interval.stride b.interval.stride < 2 ^ 64)
     {x : Int} (hxa : a.Mem x) (hxb : b.Mem x) : ∃ r, a.intersect b = some r ∧ r.Mem x := by
-  obtain ⟨I, hI, hmem, _, _⟩ := signedIntersect_spec a.interval b.interval ha.1 hb.1 hw hL hxa hxb
+  obtain ⟨I, hI, hmem, _, _⟩ := signedIntersect_spec a.interval b.interval ha.1 hb.1 hw hxa hxb
   exact intersect_of_interval a b ⟨I, hI, hmem⟩
 
 /-- **C04-intersect-unsat.** `intersect` reports "unsatisfiable" only when the operands share no concrete
-value (same range of strides). -/
+value. -/
 theorem intersect_none_no_common (a b : IntervalDomain) (ha : a.WF) (hb : b.WF) (hw : b.interval.w = a.interval.w)
-    (hL : Nat.lcm a.interval.stride b.interval.stride < 2 ^ 64) (hnone : a.intersect b = none) :
-    ¬ ∃ x, a.Mem x ∧ b.Mem x := by
+    (hnone : a.intersect b = none) : ¬ ∃ x, a.Mem x ∧ b.Mem x := by
   rintro ⟨x, hxa, hxb⟩
-  obtain ⟨r, hr, _⟩ := intersect_sound a b ha hb hw hL hxa hxb
+  obtain ⟨r, hr, _⟩ := intersect_sound a b ha hb hw hxa hxb
   rw [hnone] at hr
   cases hr
-
-/-- **C04-intersect-complete.** For ALL well-formed operands of equal width and every common member `x`:
-`intersect` keeps `x`, or — only for operands of at most 64 bit whose strides have an lcm above
-`u64::MAX` — it answers `Err`. The second case is the documented give-up of
-`compute_intersection_residue_class` (known finding `intersect-lcm-overflow-false-unsat`): there the
-property "unsatisfiable only without a common member" does not hold for the code. -/
-theorem intersect_complete (a b : IntervalDomain) (ha : a.WF) (hb : b.WF) (hw : b.interval.w = a.interval.w)
-    {x : Int} (hxa : a.Mem x) (hxb : b.Mem x) :
-    (∃ r, a.intersect b = some r ∧ r.Mem x) ∨
-    (a.interval.w ≤ 64 ∧ 2 ^ 64 ≤ Nat.lcm a.interval.stride b.interval.stride ∧ a.intersect b = none) := by
-  rcases signedIntersect_complete a.interval b.interval ha.1 hb.1 hw hxa hxb with ⟨I, hI, hmem, _, _⟩ | ⟨h1, h2, h3⟩
-  · exact .inl (intersect_of_interval a b ⟨I, hI, hmem⟩)
-  · refine .inr ⟨h1, h2, ?_⟩
-    unfold IntervalDomain.intersect
-    rw [h3]
 
 /-! ### non-vacuity -/
 
@@ -287,18 +253,18 @@ def exJ : IntervalDomain := ⟨⟨8, -116, 101, 7⟩, none, none, 0⟩
 example : ∃ r, exI.intersect exJ = some r ∧ r.Mem 45 :=
   intersect_sound exI exJ
     ⟨by decide, (by intro u h; cases h), (by intro l h; cases h), by decide⟩
-    ⟨by decide, (by intro u h; cases h), (by intro l h; cases h), by decide⟩ rfl (by decide)
-    (by decide) (by decide)
+    ⟨by decide, (by intro u h; cases h), (by intro l h; cases h), by decide⟩ rfl
+    (x := 45) (by decide) (by decide)
 
 /-- the witness of the known finding: `{4, 4 + 2313877300527753421, …}` ∩ `{4, 4 + 1610612736}` (8 byte) -/
 def exK : IntervalDomain := ⟨⟨64, 4, 4 + 2313877300527753421 * 3, 2313877300527753421⟩, none, none, 0⟩
 def exM : IntervalDomain := ⟨⟨64, 4, 4 + 1610612736, 1610612736⟩, none, none, 0⟩
 
-example : exK.intersect exM = none :=
-  ((intersect_complete exK exM
+example : ∃ r, exK.intersect exM = some r ∧ r.Mem 4 :=
+  intersect_sound exK exM
     ⟨by decide, (by intro u h; cases h), (by intro l h; cases h), by decide⟩
     ⟨by decide, (by intro u h; cases h), (by intro l h; cases h), by decide⟩ rfl
-    (x := 4) (by decide) (by decide)).resolve_left (by decide)).2.2
+    (x := 4) (by decide) (by decide)
 
 example : exI.intersect exJ = some ⟨⟨8, 45, 45, 0⟩, none, none, 0⟩ := by decide
 
